@@ -7,10 +7,10 @@ from .. import land
 LEVEL = 'exploration'
 ENGINE = 'SEQ'
 TECHNIQUE = 'exhaustive product of (persistent class, state at restart, number of consecutive restarts, results pipe, restart arguments) executed as operation histories on real workers and checked against a reference model of a fresh worker'
-LEVEL_TEXT = ('every combination of the bounded product is run on real workers: 3 classes x 14 states at restart (never used, dying on its own, finished but lingering, uncooperative and ignoring SIGTERM, results unread, large results unread, inputs queued, closed, died by exception, killed, uncooperative, cooperative with a slow clean-up, killed with a parked forwarder, killed with a slow consumer) x 1-3 restarts x default/supplied results pipe x restart arguments; oracle: live worker, same name/userid/target/defaults, new identity for process/remote kinds, old child gone, the new stream yields exactly the post-restart results in order, result counts post-restart enqueues, raises (and keeps the old child) when the old incarnation cannot be stopped')
+LEVEL_TEXT = ('every combination of the bounded product is run on real workers: 3 classes x 16 states at restart (never used, holding the interpreter lock in a C call, SIGSTOPped, dying on its own, finished but lingering, uncooperative and ignoring SIGTERM, results unread, large results unread, inputs queued, closed, died by exception, killed, uncooperative, cooperative with a slow clean-up, killed with a parked forwarder, killed with a slow consumer) x 1-3 restarts x default/supplied results pipe x restart arguments; oracle: live worker, same name/userid/target/defaults, new identity for process/remote kinds, old child gone, the new stream yields exactly the post-restart results in order, result counts post-restart enqueues, raises (and keeps the old child) when the old incarnation cannot be stopped')
 LEVEL_NOTE = 'the state alphabet is finite and hand-picked from the statement; timing inside a state (how far the old child got) is whatever the OS does, the oracle does not depend on it'
 
-STATES = ['fresh', 'unread', 'big-unread', 'queued', 'closed', 'died', 'dying', 'lingering', 'stubborn-sigign', 'killed', 'stubborn', 'slow-unwind', 'killed+parked', 'killed+slow-consumer']
+STATES = ['fresh', 'unread', 'big-unread', 'queued', 'closed', 'died', 'dying', 'lingering', 'stubborn-sigign', 'killed', 'stubborn', 'slow-unwind', 'killed+parked', 'killed+slow-consumer', 'gil-hog', 'stopped']
 
 
 def prep(state, kind, tmp):
@@ -43,6 +43,11 @@ def prep(state, kind, tmp):
         return [E('STUBBORN'), {'op': 'sleep', 's': 0.2}]
     if state == 'slow-unwind':
         return [E('SLOWUNWIND'), {'op': 'sleep', 's': 0.2}]
+    if state == 'gil-hog':
+        # no Python code of the child runs (its control thread included) until a signal ends the C call
+        return [E('GILHOG'), {'op': 'sleep', 's': 0.4}]
+    if state == 'stopped':
+        return [E('old1'), {'op': 'sleep', 's': 0.3}, {'op': 'kill', 'var': 'w', 'sig': 'STOP'}, {'op': 'sleep', 's': 0.1}]
     raise ValueError(state)
 
 
@@ -54,6 +59,8 @@ def scripts(quick):
                 continue
             if state == 'stubborn-sigign' and kind != 'PP':
                 continue      # a thread cannot be killed; the server side of the remote kind stops at SIGTERM
+            if state in ('gil-hog', 'stopped') and kind != 'PP':
+                continue      # (a thread in such a call takes the whole harness along; the remote frontend cannot signal the child)
             if state == 'killed+slow-consumer' and kind != 'PR':
                 continue
             for pipe in ('default', 'supplied'):
@@ -64,7 +71,7 @@ def scripts(quick):
                 for rargs in ('default', 'timeout', 'noforce', 'zero'):
                     if rargs == 'zero' and state not in ('stubborn', 'queued', 'fresh', 'slow-unwind'):
                         continue      # timeout=0 ("do not wait at all"), force=False
-                    if state == 'stubborn-sigign' and rargs != 'timeout':
+                    if state in ('stubborn-sigign', 'gil-hog', 'stopped') and rargs != 'timeout':
                         continue      # with force (the default) the last resort SIGKILL ends it: a good restart is expected
                     if state == 'lingering' and (rargs != 'timeout' or kind == 'PR'):
                         continue      # default: waits for ever; without force (and on the parent side of the remote kind) the child stays
@@ -81,7 +88,7 @@ def scripts(quick):
                     if state == 'big-unread' and (rargs == 'default' or (kind in ('PT', 'PR') and rargs != 'noforce')):
                         continue      # nobody reads the full pipe: waiting for ever is the documented behaviour; force kills the caller
                     for nres in ((1, 2) if quick else (1, 2, 3)):
-                        if nres > 1 and state in ('stubborn', 'killed+parked', 'big-unread', 'killed+slow-consumer', 'slow-unwind', 'lingering', 'stubborn-sigign'):
+                        if nres > 1 and state in ('stubborn', 'killed+parked', 'big-unread', 'killed+slow-consumer', 'slow-unwind', 'lingering', 'stubborn-sigign', 'gil-hog', 'stopped'):
                             continue
                         target = 'slow_echo'
                         kw = {}
